@@ -20,6 +20,9 @@ __all__ = ['linear_symbolic','replace_variables','get_variables','denominator',
 from numpy import ndarray, asarray, any as _any
 from mystic._symbolic import solve
 from mystic.tools import list_or_tuple_or_ndarray, flatten
+import re
+# a variable name that is not part of a longer name or a number (e.g. 1e5)
+_name = r'(?<![A-Za-z0-9_])(?<![0-9]\.)%s(?![A-Za-z0-9_])'
 NL = '\n'
 
 
@@ -878,9 +881,8 @@ Examples:
     >>> print(replace_variables(equation,vars))
     $4 = ma$1($2,$1) + $1
     ''' #FIXME: don't parse if __name__ in builtins, globals, or locals?
-    import re # match whole names only (not 'x' in 'max', or 'e' in '1e+20')
-    for i in indices:
-        name = r'(?<![A-Za-z0-9_])(?<![0-9]\.)' + re.escape(variables[i]) + r'(?![A-Za-z0-9_])'
+    for i in indices: # match whole names only (not 'x' in 'max')
+        name = _name % re.escape(variables[i])
         constraints = re.sub(name, lambda m: marker + str(i), constraints)
     return constraints.replace(marker, markers)
 
@@ -981,8 +983,9 @@ Examples:
             # Iterate in reverse in case ndim > 9.
             indices = list(range(ndim))
             indices.reverse()
-            for i in indices:
-                fixed = fixed.replace(varname + str(i), 'x[' + str(i) + ']') 
+            for i in indices: # match whole names only (not 'p2' in 'exp2')
+                name = _name % (re.escape(varname) + str(i))
+                fixed = re.sub(name, 'x[' + str(i) + ']', fixed)
             constraint = fixed.strip()
 
             # Replace 'spread', 'mean', and 'variance' (uses numpy, not mystic)
@@ -1070,8 +1073,9 @@ Examples:
         # Iterate in reverse in case ndim > 9.
         indices = list(range(ndim))
         indices.reverse()
-        for i in indices:
-            line = line.replace(varname + str(i), 'x[' + str(i) + ']') 
+        for i in indices: # match whole names only (not 'p2' in 'exp2')
+            name = _name % (re.escape(varname) + str(i))
+            line = re.sub(name, 'x[' + str(i) + ']', line)
         constraint = line.strip()
 
         # Replace 'ptp', 'average', and 'var' (uses mystic, not numpy)
